@@ -760,7 +760,12 @@ def rule_K6(F, R):
     reader_fns, _ = readers_of(F, names)
     rn = {_norm(x) for x in reader_fns}
     is_reader = lambda t: any(_norm(n) in rn for n in call_names(t))
-    is_children = lambda t: any(n.endswith("get_child_versions") for n in call_names(t))
+    import roles
+    chf = roles.cloud_children_fn(F)
+    if chf is None:
+        R.missing("K6", "the object-store helper that lists candidate children (Service::list -> Vec<Uuid>)")
+        return
+    is_children = lambda t: any(roles.norm(n) == roles.norm(chf) for n in call_names(t))
     stop = lambda t: is_reader(t) or is_children(t)
     sites = agg_sites(c, "GetVersionResult", "Version")
     if not sites:
